@@ -423,9 +423,13 @@ def caller_history(r, pfx, avoid):
                     ops.append({"k": "stale", "p": p, "what": pick(r, ["garbage", "fakehdr", "lines"]),
                                 "n": pick(r, [10, 3000, 100000]), "seed": r.randrange(1 << 20)})
                 t = chunk(T.draw_fields_pow2(r, form) if s.get("pow2") else T.draw_fields(r, form, simple=True, nmax=5))
-                ops.append({"k": "create", "p": p, "form": s["form"], "delim": s["delim"],
-                            "entry": pick(r, SF_CREATE if s["form"] == "sfile" else RAW_CREATE), "tab": t,
-                            "hdr": T.gen_header(r, True) if s["form"] == "sfile" else None})
+                cop = {"k": "create", "p": p, "form": s["form"], "delim": s["delim"],
+                       "entry": pick(r, SF_CREATE if s["form"] == "sfile" else RAW_CREATE), "tab": t,
+                       "hdr": T.gen_header(r, True) if s["form"] == "sfile" else None}
+                if s["form"] == "sfile" and chance(r, 0.06):
+                    cop["hdr_align"] = {"block": pick(r, [1024, 4096, 8192, 16384, 65536]), "back": r.randrange(0, 7),
+                                        "mult": r.randrange(1, 3)}
+                ops.append(cop)
                 s["fields"] = t["fields"]
                 s["exists"] = True
             continue
